@@ -2,9 +2,9 @@ CONSTANTS
   StalePath = FALSE
   AllSiblings = FALSE
   EnterOnFocusIn = FALSE
-  StaleTarget = FALSE
-  Depth = 3
-  Shapes = {"A", "H"}
+  StaleTarget = TRUE
+  Depth = 2
+  Shapes = {"H"}
 SPECIFICATION Spec
-INVARIANTS Conforms RouteSane ChainSane HoverClosed
+INVARIANTS Conforms
 CHECK_DEADLOCK FALSE
